@@ -167,6 +167,7 @@ fn scan_idents(ts: TokenStream, f: &mut dyn FnMut(&proc_macro2::Ident)) {
 struct Collector<'a> {
     closures: Vec<&'a syn::ExprClosure>,
     loops: Vec<(Span, Span, Option<Span>)>, // (whole loop span, body block span, wildcard pattern span)
+    for_exprs: BTreeMap<usize, Span>, // start offset of a `for` loop -> span of the iterated expression
     attrs: Vec<Span>,
     macros: Vec<&'a syn::Macro>,
 }
@@ -178,6 +179,7 @@ impl<'a> Visit<'a> for Collector<'a> {
     fn visit_expr_for_loop(&mut self, l: &'a syn::ExprForLoop) {
         let wild = if let syn::Pat::Wild(w) = &*l.pat { Some(w.span()) } else { None };
         self.loops.push((l.span(), l.body.span(), wild));
+        self.for_exprs.insert(range(l.span()).0, l.expr.span());
         syn::visit::visit_expr_for_loop(self, l);
     }
     fn visit_expr_while(&mut self, l: &'a syn::ExprWhile) {
@@ -294,6 +296,9 @@ struct HoleDirs {
     split: Option<BTreeMap<String, String>>,
     snaps: Vec<(String, String)>,
     first: Vec<String>,
+    replace_opt: Vec<(String, String, String)>,
+    before_opt: Vec<(String, String)>,
+    after_opt: Vec<(String, String)>,
     loopstart: BTreeMap<usize, String>,
     loopend: BTreeMap<usize, String>,
 }
@@ -324,7 +329,7 @@ fn parse_quoted(s: &str) -> R<(String, &str)> {
 
 fn parse_dirs(lines: &[&str]) -> R<HoleDirs> {
     // join continuation lines: a directive starts with a keyword at line start (after trim)
-    let kws = ["subst ", "closure ", "loop ", "before ", "after ", "replace ", "selfname ", "nosig", "probe ", "hint ", "split ", "snap ", "first ", "loopstart ", "loopend "];
+    let kws = ["subst ", "closure ", "loop ", "before ", "after ", "beforeopt ", "afteropt ", "replace ", "replaceopt ", "selfname ", "nosig", "probe ", "hint ", "split ", "snap ", "first ", "loopstart ", "loopend "];
     let mut items: Vec<String> = Vec::new();
     for l in lines {
         let t = l.trim();
@@ -396,6 +401,14 @@ fn parse_dirs(lines: &[&str]) -> R<HoleDirs> {
                 spec = format!("{opt} {spec}");
             }
             d.loops.insert(ord, spec);
+        } else if let Some(rest) = it.strip_prefix("beforeopt ") {
+            let (q, r) = parse_quoted(rest)?;
+            let t = r.trim_start().strip_prefix("=>").ok_or_else(|| Bail("beforeopt: missing =>".into()))?;
+            d.before_opt.push((q, t.trim().to_string()));
+        } else if let Some(rest) = it.strip_prefix("afteropt ") {
+            let (q, r) = parse_quoted(rest)?;
+            let t = r.trim_start().strip_prefix("=>").ok_or_else(|| Bail("afteropt: missing =>".into()))?;
+            d.after_opt.push((q, t.trim().to_string()));
         } else if let Some(rest) = it.strip_prefix("before ") {
             let (q, r) = parse_quoted(rest)?;
             let t = r.trim_start().strip_prefix("=>").ok_or_else(|| Bail("before: missing =>".into()))?;
@@ -404,6 +417,13 @@ fn parse_dirs(lines: &[&str]) -> R<HoleDirs> {
             let (q, r) = parse_quoted(rest)?;
             let t = r.trim_start().strip_prefix("=>").ok_or_else(|| Bail("after: missing =>".into()))?;
             d.after.push((q, t.trim().to_string()));
+        } else if let Some(rest) = it.strip_prefix("replaceopt ") {
+            // like `replace`, but a missing snippet is not a lost anchor (the contract must then fail on its own)
+            let (q, r) = parse_quoted(rest)?;
+            let t = r.trim_start().strip_prefix("=>").ok_or_else(|| Bail("replaceopt: missing =>".into()))?;
+            let (q2, r2) = parse_quoted(t)?;
+            let why = r2.trim_start().strip_prefix("::").unwrap_or("").trim().to_string();
+            d.replace_opt.push((q, q2, why));
         } else if let Some(rest) = it.strip_prefix("replace ") {
             let (q, r) = parse_quoted(rest)?;
             let t = r.trim_start().strip_prefix("=>").ok_or_else(|| Bail("replace: missing =>".into()))?;
@@ -825,11 +845,24 @@ fn transform_body(
     // loops
     col.loops.sort_by_key(|l| range(l.0).0);
     for (n, spec) in &dirs.loops {
-        let Some((_, body, wild)) = col.loops.get(*n) else {
+        let Some((whole, body, wild)) = col.loops.get(*n) else {
             return bail(format!("lost anchor: overlay names loop #{n}, body has {}", col.loops.len()));
         };
         let (bs, _) = range(*body);
         let mut spec = spec.as_str();
+        // T19: `for x in e` — the ghost iterator Verus creates is given a name (`for x in NAME: e`), pure annotation
+        if let Some(rest) = spec.strip_prefix("iter=") {
+            let (nm, tail) = rest.split_once(char::is_whitespace).unwrap_or((rest, ""));
+            match col.for_exprs.get(&range(*whole).0) {
+                Some(e) => {
+                    let (es, _) = range(*e);
+                    edits.push(Edit { start: es, end: es, text: format!("{nm}: ") });
+                    fired.push(format!("T19 for-loop ghost iterator named {nm}"));
+                }
+                None => return bail(format!("loop #{n}: iter= given but the loop is not a `for` loop")),
+            }
+            spec = tail.trim_start();
+        }
         // T11: `for _ in ..` — the wildcard is given a name so the invariant can mention the index
         if let Some(rest) = spec.strip_prefix("name=") {
             let (nm, tail) = rest.split_once(char::is_whitespace).unwrap_or((rest, ""));
@@ -884,6 +917,23 @@ fn transform_body(
     for (snip, text) in &dirs.after {
         let p = locate(snip)? + snip.len();
         edits.push(Edit { start: p, end: p, text: format!(" {text}") });
+    }
+    for (snip, text) in &dirs.before_opt {
+        if let Ok(p) = locate(snip) {
+            edits.push(Edit { start: p, end: p, text: format!("{text} ") });
+        }
+    }
+    for (snip, text) in &dirs.after_opt {
+        if let Ok(p) = locate(snip) {
+            let p = p + snip.len();
+            edits.push(Edit { start: p, end: p, text: format!(" {text}") });
+        }
+    }
+    for (snip, text, why) in &dirs.replace_opt {
+        if let Ok(p) = locate(snip) {
+            edits.push(Edit { start: p, end: p + snip.len(), text: text.clone() });
+            fired.push(format!("REWRITE `{snip}` => `{text}` ({why})"));
+        }
     }
     for (snip, text, why) in &dirs.replace {
         let p = locate(snip)?;
